@@ -195,6 +195,8 @@ def run(ctx):
     from .c07 import register_api
     register_api(ctx, "C06.R6")
     _driver(ctx)
+    from .c23 import frame_slots
+    frame_slots(ctx, "C06.R8")      # spill slots are Frame.alloc slots: two that overlap are two values sharing storage
 
 
 def _driver(ctx):
